@@ -201,7 +201,7 @@ public:
     int npos=0, pos1=-1, pos2=-1;
     int posDist=1;     // should be 1
     for (int i=(int)v_.size(); i--; ) {
-      if (x.is_positive(v_[i])) {
+      if (x.is_nonzero(v_[i])) {
         ++npos;
         if (pos1<0)
           pos1=i;
